@@ -98,11 +98,19 @@ FfC == FfBase \cup FfScale
 FfCore == FfBase \cup { FE("conv", <<P("", "TC1", "T")>>, 820, "end", "lf"), FE("dlf",  <<P("ECU", "TC1", "")>>, 820, "end", "lf") }
 StyleC == {"a", "x", "s", "none"}
 
-OptSpace == [winc : WinC, lcsc : LcsC, eac : EacC, f : FfC, ord : OrdC, sort : BOOLEAN, style : StyleC, ofile : BOOLEAN]
+\* further options that must not change the selection: the decoding plugins configured from the repository's descriptions
+\* (they sit between lifecycle detection and sorting / filtering in the pipeline and only change texts here), the file
+\* transfer plugin (keeps FLDA, nothing matches its glob), the two debug verification switches
+ExtraC == {"none", "decoders", "ft", "debug"}
+\* how the input files are named: listed | one glob pattern | listed plus a file that is empty / holds only garbage / does
+\* not exist (such a file contributes no message)
+ArgsC == {"list", "glob", "plus_empty", "plus_garbage", "plus_missing"}
+OptSpace == [winc : WinC, lcsc : LcsC, eac : EacC, f : FfC, ord : OrdC, sort : BOOLEAN, style : StyleC, ofile : BOOLEAN,
+             extra : ExtraC, args : ArgsC]
 \* the space is the full product of its dimensions; it is emitted as its dimensions (one SCN line), the orchestrator forms
 \* the product (pairwise-complete arrays, every value alone, seeded samples of the product)
 Dims == [winc |-> WinC, lcsc |-> LcsC, eac |-> EacC, f |-> FfC, ord |-> OrdC, sort |-> BOOLEAN, style |-> StyleC, ofile |-> BOOLEAN,
-         eaccore |-> EacCore, fcore |-> FfCore]
+         extra |-> ExtraC, args |-> ArgsC, eaccore |-> EacCore, fcore |-> FfCore]
 
 \* input sets: 1-3 files; per file the ECUs it contains (same pattern = same stream, read one after the other;
 \* different patterns = parallel streams merged by reception time); boots per ECU; garbage between messages; some
